@@ -110,6 +110,7 @@ CHECKS = {
         "level": "exploration",
         "assumptions": EXPLORATION_ASSUMPTIONS + ["every issued line is unique (sender id and index are part of it), so loss, duplication, alteration and reordering are all visible in the transcript"],
         "legs": [
+            {"test": "TestC09_Transient", "quick": {"checks": 300, "timeout": "15m"}, "thorough": {"checks": 5000, "shards": 2, "timeout": "60m"}},
             {"test": "TestC09", "quick": {"checks": 500, "timeout": "15m"},
              "thorough": {"checks": 5000, "shards": 4, "timeout": "60m"}},
         ],
